@@ -55,13 +55,14 @@ MCClock == %s
 ''' % (name, ', '.join(modefiles), ', '.join(fset(f) for f in initfiles), ', '.join(initreports), pts(starts), pts(clock))
 
 
-def cfg(props=True, W=0, collectors=(), longprogs=(), maxproc=0, setmodes=(), setpads=('',), setdays=(), xs=(0,), rates=(0,), maxrun=1, maxset=0, maxedit=0, maxcollect=0, maxadv=0):
+def cfg(props=True, W=0, collectors=(), longprogs=(), maxproc=0, setmodes=(), setpads=('',), setzones=('',), emptyprogs=(), setdays=(), xs=(0,), rates=(0,), maxrun=1, maxset=0, maxedit=0, maxcollect=0, maxadv=0):
     t = 'SPECIFICATION Spec\nCHECK_DEADLOCK FALSE\n'
     if props:
         t += ('INVARIANTS TypeOK OneRequestPerWeek RequestsRecorded\n'
               'PROPERTIES RequestOnlyWhenOn UploadableOnlyIf SentOnlyIf OffChangesNothing OtherBehavesLocal SetGet NoNewReadyLeftBehind DisabledStaysSilent NoFileBornUnderOff\n')
     t += 'CONSTANTS\n W = %d\n Collectors = {%s}\n LongProgs = {%s}\n MaxProc = %d\n' % (W, ', '.join('"%s"' % c for c in collectors), ', '.join('"%s"' % c for c in longprogs), maxproc)
     t += ' ModeFiles <- MCModeFiles\n InitFiles <- MCInitFiles\n InitReports <- MCInitReports\n Starts <- MCStarts\n ClockPoints <- MCClock\n'
+    t += ' SetZones = {%s}\n EmptyProgs = {%s}\n' % (', '.join(tlaval.to_tla(z) for z in setzones), ', '.join(tlaval.to_tla(z) for z in emptyprogs))
     t += ' SetModes = {%s}\n SetPads = {%s}\n SetDays = %s\n Xs = %s\n Rates = %s\n' % (', '.join(tlaval.to_tla(m) for m in setmodes), ', '.join(tlaval.to_tla(m) for m in setpads),
                                                                        iset(setdays), iset(xs), iset(rates))
     t += ' MaxRun = %d\n MaxSet = %d\n MaxEdit = %d\n MaxCollect = %d\n MaxAdv = %d\n' % (maxrun, maxset, maxedit, maxcollect, maxadv)
@@ -75,6 +76,10 @@ NOPROC = {'st': 'none', 'p': '', 'b': -1, 'e': -1}
 OTHERS = ['ON', 'onn', 'of', 'Local', 'true']
 ALL_DATES = [NODATE, BADDATE, E - 8, E - 7, E - 6, E - 4, E - 3, E - 2, E - 1, E, E + 1, E + 6, E + 7, E + 8]
 ALL_STARTS = [(E - 1, 86399), (E, 0), (E, 1), (E + 1, 0), (E + 6, 86399), (E + 7, 1), (E + 20, 86399), (E + 21, 0), (E + 21, 1), (E + 22, 0), (E + 28, 1)]
+EMPTY_PROG = 'pZ'     # the program whose pre-existing count files hold no counter (Consent.tla, EmptyProgs)
+# a week whose only file is empty; an empty file that begins before / after the file with data; the same program twice in a week
+FILESETS_X = [[('pZ', E - 7, E)], [('pZ', E - 7, E), ('pA', E - 3, E)], [('pA', E - 7, E), ('pZ', E - 3, E)], [('pA', E - 7, E), ('pA', E - 3, E)],
+              [('pZ', E - 3, E), ('pB', E + 1, E + 7)]]
 FILESETS = [[], [('pA', E - 7, E)], [('pA', E - 1, E)], [('pA', E - 3, E), ('pB', E - 7, E)], [('pA', E - 7, E), ('pB', E - 1, E)],
             [('pA', E - 3, E), ('pB', E + 1, E + 7)]]
 
@@ -117,7 +122,7 @@ def state_py(st):
 
 
 def act_py(a):
-    return {'op': a['op'], 'a': a['a'], 'p': a.get('p', ''), 'n1': a['n1'], 'n2': a['n2'], 'ok': a['ok']}
+    return {'op': a['op'], 'a': a['a'], 'p': a.get('p', ''), 'tz': a.get('tz', ''), 'n1': a['n1'], 'n2': a['n2'], 'ok': a['ok']}
 
 
 def norm_obs_state(s):
@@ -164,8 +169,8 @@ def run(ctx):
         reports = [rep(l, r, u) for l in subsets([E]) for r in subsets([E, E + 7, E - 14]) for u in subsets([E, E - 14])]
     else:
         reports = [rep(l, r, u) for l in subsets([E]) for r in subsets([E, E + 7]) for u in subsets([E])]
-    m = mc('MCConsentCross', all_modefiles(), FILESETS, reports, ALL_STARTS)
-    r = ctx.tlc('MCConsentCross', files={'MCConsentCross.tla': m}, cfg_text=cfg(xs=(0, 512, 513) if th else (512, 513), rates=(0, 512, 1024) if th else (0, 512)), label='Consent-cross', timeout=1500)
+    m = mc('MCConsentCross', all_modefiles(), FILESETS + (FILESETS_X[1:4] if th else FILESETS_X[1:3]), reports, ALL_STARTS)
+    r = ctx.tlc('MCConsentCross', files={'MCConsentCross.tla': m}, cfg_text=cfg(xs=(0, 512, 513) if th else (513,), rates=(0, 512, 1024) if th else (0, 512), emptyprogs=(EMPTY_PROG,)), label='Consent-cross', timeout=1500)
     if not r.ok:
         raise Infra('Consent.tla (cross table) violates its own %s %s\n%s' % (r.error, r.error_name, r.out[-3000:]))
     cross_states = r.distinct
@@ -174,14 +179,14 @@ def run(ctx):
     hist_modes = ['Absent', mf_tla('text', 'on', B - 2), mf_tla('text', 'off'), mf_tla('text', 'local'), mf_tla('text', 'ON')]
     hist_clock = [(B + 1, 0), (B + 8, 1), (B + 9, 0), (B + 30, 1)]
     m = mc('MCConsentHist', hist_modes, [[]], [rep([], [], [])], [(B, 1)], hist_clock)
-    hcfg = cfg(W=6, collectors=('c1', 'c2') if th else ('c1',), setmodes=('on', 'off', 'local', 'auto'), setpads=('', 'nl', 'trail') if th else ('', 'nl'), setdays=(B - 1, B + 2), xs=(0, 600), rates=(0, 512),
+    hcfg = cfg(W=6, collectors=('c1', 'c2') if th else ('c1',), setmodes=('on', 'off', 'local', 'auto'), setpads=('', 'nl', 'trail') if th else ('',), setdays=(B - 1, B + 2), xs=(0, 600), rates=(0, 512),
                maxrun=2, maxset=2, maxedit=1, maxcollect=2 if th else 1, maxadv=3 if th else 2)
     r = ctx.tlc('MCConsentHist', files={'MCConsentHist.tla': m}, cfg_text=hcfg, label='Consent-hist', timeout=3000)
     if not r.ok:
         raise Infra('Consent.tla (histories) violates its own %s %s\n%s' % (r.error, r.error_name, r.out[-3000:]))
     # one long-running counting process interleaved with mode changes and the clock: exhaustive, model only
     m = mc('MCConsentProc', ['Absent', mf_tla('text', 'on', B - 2), mf_tla('text', 'off'), mf_tla('text', 'local')], [[]], [rep([], [], [])], [(B, 1)], hist_clock)
-    pcfg = cfg(W=6, longprogs=('lp',), maxproc=4 if th else 3, setmodes=('on', 'off', 'local'), setdays=(B + 1,), xs=(0,), rates=(0,),
+    pcfg = cfg(W=6, longprogs=('lp',), maxproc=4 if th else 3, setmodes=('on', 'off', 'local'), setpads=('', 'nl'), setdays=(B + 1,), xs=(0,), rates=(0,),
                maxrun=1, maxset=2, maxedit=1 if th else 0, maxadv=3)
     r = ctx.tlc('MCConsentProc', files={'MCConsentProc.tla': m}, cfg_text=pcfg, label='Consent-proc', timeout=3000)
     if not r.ok:
@@ -193,7 +198,11 @@ def run(ctx):
 
     def add_table(name, modefiles, filesets, reps, starts, xs, rates, op='run', **kw):
         m = mc(name, modefiles, filesets, reps, starts)
-        r = ctx.tlc(name, files={name + '.tla': m}, cfg_text=cfg(props=False, xs=xs, rates=rates, **kw), dump=True, label=name, count=False)
+        ctext = cfg(props=False, xs=xs, rates=rates, **kw)
+        if min(rates) < 0:      # a cfg file cannot hold negative numbers
+            m = m.replace('\n====', '\nMCRates == %s\n====' % iset(rates))
+            ctext = ctext.replace(' Rates = %s\n' % iset(rates), ' Rates <- MCRates\n')
+        r = ctx.tlc(name, files={name + '.tla': m}, cfg_text=ctext, dump=True, label=name, count=False)
         if not r.ok:
             raise Infra('%s: %s\n%s' % (name, r.error, r.out[-2000:]))
         n = 0
@@ -204,7 +213,11 @@ def run(ctx):
                 continue      # the same call as the accepting branch; which branch the code takes is observed
             ini = st['init']
             sid = len(scenarios)
-            init = {'modeFile': mf_py(ini['modeFile']), 'day': ini['day'], 'tod': ini['tod'], 'files': files_py(ini['files']),
+            ifiles = files_py(ini['files'])
+            for f in ifiles:
+                if f['p'] in kw.get('emptyprogs', ()):
+                    f['n'] = 0
+            init = {'modeFile': mf_py(ini['modeFile']), 'day': ini['day'], 'tod': ini['tod'], 'files': ifiles,
                     'local': sorted(ini['local']), 'ready': sorted(ini['ready']), 'uploaded': sorted(ini['uploaded']), 'requests': []}
             scenarios.append({'id': sid, 'src': name, 'w': 0, 'shift': 0, 'variant': sid, 'child': False, 'init': init,
                               'steps': [{'a': act_py(st['last']), 'modeFile': init['modeFile'], 'day': st['day'], 'tod': st['tod']}]})
@@ -224,7 +237,29 @@ def run(ctx):
     n4 = add_table('MCConsentT4', ['Absent', mf_tla('text', 'on', E - 8), mf_tla('text', 'off'), mf_tla('text', 'local', E), mf_tla('text', 'ON'), mf_tla('text', 'off', E - 8, True)],
                    [[]], [rep([], [], [])], [(E, 1)], (0,), (0,), op='set', setmodes=('on', 'off', 'local', 'auto', 'On', ''), setpads=PADS, setdays=(E - 1, E + 3),
                    maxrun=0, maxset=1)
-    ctx.log('table vectors: dates %d, mode classes %d, ready reports %d, set arguments %d' % (n1, n2, n3, n4))
+    # the same instant given in zones far east / west of UTC, dates decades away, with and without padding
+    n4 += add_table('MCConsentT4z', ['Absent', mf_tla('text', 'off')], [[]], [rep([], [], [])], [(E, 1)], (0,), (0,), op='set', setmodes=('on', 'off', 'auto'),
+                    setpads=('', 'nl'), setzones=('east', 'west'), setdays=(E - 1, 3, 84006), maxrun=0, maxset=1)
+    # extremes: opt-in dates decades before / after, a run more than a year late, X at 0 / 1 / 2 / 1023 against sample rates below zero,
+    # 1/1024 and above one, the same program twice in a week
+    n5 = add_table('MCConsentT5', [mf_tla('text', 'on', d) for d in (NODATE, 3, 84006, E - 8)], [FILESETS[1], FILESETS_X[3], FILESETS_X[1]], [rep([], [], [])],
+                   [(E + 1, 0), (E + 400, 5)], (0, 1, 2, 1023), (-512, 1, 2048), emptyprogs=(EMPTY_PROG,))
+    # count files that are valid but hold no counter, alone and next to files with data, against every kind of existing report
+    n6 = add_table('MCConsentT6', [mf_tla('text', 'on'), mf_tla('text', 'on', E - 5), mf_tla('text', 'on', E), mf_tla('text', 'local'), mf_tla('text', 'off')],
+                   [FILESETS_X[0], FILESETS_X[1], FILESETS_X[2], FILESETS_X[4]], [rep([], [], []), rep([], [E], []), rep([E], [], []), rep([], [], [E])],
+                   [(E + 1, 0), (E + 8, 1)], (256,), (0,), emptyprogs=(EMPTY_PROG,))
+    ctx.log('table vectors: dates %d, mode classes %d, ready reports %d, set arguments %d, extremes %d, empty files %d' % (n1, n2, n3, n4, n5, n6))
+    # the surroundings: no telemetry directory at all / no local directory yet / foreign, corrupt and zero-length files, a sub-directory and
+    # a debug directory lying around (they must be ignored and, in mode off, left exactly as they are)
+    for sc in scenarios:
+        ini = sc['init']
+        empty = not (ini['files'] or ini['local'] or ini['ready'])
+        if empty and not ini['uploaded'] and ini['modeFile']['k'] == 'absent' and sc['id'] % 3 == 1:
+            sc['nodir'] = True
+        elif empty and sc['id'] % 4 == 2:
+            sc['bare'] = True
+        elif sc['id'] % 5 == 1:
+            sc['extras'] = True
     # directed histories (judged by TLC like every other observation): set a padded mode, then count and upload.  What follows
     # a SetMode is judged by the mode the user set: data from before the opt-in date, a program run and uploader runs after "off".
     for ini_mf in ({'k': 'absent', 'w': '', 'd': NODATE, 'pad': False}, {'k': 'text', 'w': 'local', 'd': NODATE, 'pad': False}):
@@ -268,7 +303,7 @@ def run(ctx):
     sim_clock = [(B + d, t) for d in (0, 1, 2, 6, 7, 8, 9, 10, 15, 16, 22, 23, 29, 30, 31, 37, 38) for t in (0, 1, 86399)]
     m = mc('MCConsentSim', sim_modes, [[], [('pA', B - 3, B + 2)], [('pA', B - 6, B + 1), ('pB', B, B + 1)]],
            [rep([], [], []), rep([], [B + 1], []), rep([B + 2], [B + 9], [B - 6])], [(B, 1), (B + 1, 0)], sim_clock)
-    nwalk = ctx.pick(160, 4200)
+    nwalk = ctx.pick(140, 4200)
     behaviours = 0
     def walks(label, modname, modtext, scfg, W, num, depth):
         nonlocal behaviours
@@ -282,7 +317,7 @@ def run(ctx):
                 continue
             sid = len(scenarios)
             s0 = sts[0][2]
-            sc = {'id': sid, 'src': 'sim', 'w': W, 'shift': sh[sid % len(sh)], 'variant': sid, 'child': sid % 4 == 0,
+            sc = {'id': sid, 'src': 'sim', 'w': W, 'shift': sh[sid % len(sh)], 'variant': sid, 'child': sid % 4 == 0, 'extras': sid % 5 == 1,
                   'init': state_py(s0), 'steps': []}
             for i, (_a, _args, st) in enumerate(sts[1:]):
                 sc['steps'].append({'a': act_py(st['last']), 'modeFile': mf_py(st['modeFile']), 'day': st['day'], 'tod': st['tod']})
@@ -309,7 +344,7 @@ def run(ctx):
     ctx.sample({'kind': 'behaviour', 'w': scenarios[ntab]['w'], 'ops': [(s['a']['op'], s['a']['a'], s['a']['n1'], s['a']['n2']) for s in scenarios[ntab]['steps']]})
 
     # ---- 5. run the real code ---------------------------------------------------------
-    nrandom = ctx.pick(1200, 40000)
+    nrandom = ctx.pick(1000, 40000)
     recs, rc, out = ctx.run_harness('./internal/verifh/c02', 'TestVerifC02Replay', inp={'scenarios': scenarios, 'random': nrandom}, timeout=2400)
     if not [x for x in recs if x.get('kind') == 'summary']:
         raise Infra('C02 harness wrote no summary:\n' + out[-3000:])
